@@ -92,6 +92,21 @@ def matches(finding, failure):
     return True
 
 
+def selftest_possible(ctx, cands, what, broken=None):
+    """A binding self-test corrupts a PASSING recorded execution.  On a tree that breaks the property so thoroughly that
+    no execution of the needed shape passes there is nothing to corrupt: the violations are being reported anyway, so
+    the self-test is skipped (with a note).  With no violation at all an empty candidate list is a vacuity error."""
+    from . import tlc
+    if cands:
+        return True
+    if broken is None:
+        broken = bool(ctx.failures)
+    if broken:
+        ctx.note('binding self-test skipped: no passing execution with %s on this tree (the violations above are reported)' % what)
+        return False
+    raise tlc.TLCError('self-test: no suitable execution (%s) in the corpus' % what)
+
+
 def conclude(ctx):
     """Print VIOLATION / KNOWN-FINDING lines, write replay files, return the exit status."""
     known_hit = {}
